@@ -48,6 +48,7 @@ type tversion struct {
 }
 
 type gen struct {
+	afterStale bool // the previous input failed leaving statements in the code buffer
 	r      *vh.Rng
 	nextID int
 	ents   map[string]*entity // by gomacro name
@@ -64,14 +65,27 @@ type decl struct {
 	declID int
 }
 
+// Coq term of Verif.C15.Code.cdecl for a declaration given as source: compileDecl's Extra path (single var/const
+// spec) or compileNode (everything else); hooks = hook() calls compiled before the declaration completes / fails
+func cdeclOf(src string, hooks int, ok bool) string {
+	path := "PNode"
+	if strings.HasPrefix(src, "var ") || strings.HasPrefix(src, "const ") {
+		path = "PExtra"
+	}
+	return fmt.Sprintf("mkCd %s %d %s", path, hooks, vh.CoqBool(ok))
+}
+
 type input struct {
 	Src   string `json:"src"`
 	Fails bool   `json:"fails,omitempty"`
 	c14   []string
 	c15   []string
+	cc    []string // Verif.C15.Code.cdecl per declaration
 	apply []func()
 	decls []int
 	kinds []string
+	hooks int  // hook() calls the input executes if it compiles as a whole
+	stale bool // the failing declaration leaves statements in Comp.Code
 }
 
 type probe struct {
@@ -301,10 +315,42 @@ func (g *gen) badDecl() (string, string) {
 	}
 }
 
+// a STATEMENT that fails to compile after part of it was appended to the top-level code buffer Comp.Code
+// (the appended part calls hook() / declares variables): returns source and number of hook() calls appended
+func (g *gen) staleBad() (string, int) {
+	id := g.id()
+	switch g.r.Intn(7) {
+	case 0:
+		return fmt.Sprintf("x_%d, y_%d := hook(), nil", id, id), 1
+	case 1:
+		return fmt.Sprintf("x_%d, y_%d, w_%d := hook(), hook(), nil", id, id, id), 2
+	case 2:
+		return fmt.Sprintf("for i := 0; i < hook(); i++ { undefined_%d() }", id), 1
+	case 3:
+		return fmt.Sprintf("{ w := hook(); undefined_%d(w) }", id), 1
+	case 4:
+		return fmt.Sprintf("if v := hook(); v > 0 { undefined_%d() }", id), 1
+	case 5:
+		if vs := g.live("var"); len(vs) > 0 {
+			// redefinition of a live variable in the failing statement
+			return fmt.Sprintf("%s, y_%d := hook(), nil", pick(g.r, vs).gm, id), 1
+		}
+		return fmt.Sprintf("{ w := hook(); w2 := hook(); undefined_%d(w, w2) }", id), 2
+	default:
+		return fmt.Sprintf("switch w := hook(); w { case 1: undefined_%d() }", id), 1
+	}
+}
+
 func (g *gen) input(fails bool) *input {
 	in := &input{Fails: fails}
 	n := 1 + g.r.Intn(4)
 	if !fails && g.r.Chance(1, 2) {
+		n = 1
+	}
+	// directly after an input that failed with statements left in the code buffer: mostly ONE var/const declaration
+	// (Comp.Compile -> compileDecl's Extra path), the rest any input
+	forceSingle := !fails && g.afterStale && g.r.Chance(3, 4)
+	if forceSingle {
 		n = 1
 	}
 	badAt := -1
@@ -317,16 +363,34 @@ func (g *gen) input(fails bool) *input {
 	typeDeclared := map[string]bool{}
 	for i := 0; i < n; i++ {
 		if i == badAt {
+			if g.r.Chance(2, 5) {
+				s, k := g.staleBad()
+				srcs = append(srcs, s)
+				in.c14 = append(in.c14, "SBad")
+				in.c15 = append(in.c15, "DBad")
+				in.cc = append(in.cc, cdeclOf(s, k, false))
+				in.kinds = append(in.kinds, "bad")
+				in.stale = true
+				continue
+			}
 			s, c14 := g.badDecl()
 			srcs = append(srcs, s)
 			in.c14 = append(in.c14, c14)
 			in.c15 = append(in.c15, "DBad")
+			in.cc = append(in.cc, cdeclOf(s, 0, false))
 			in.kinds = append(in.kinds, "bad")
 			continue
 		}
 		var d *decl
 		for try := 0; try < 20; try++ {
-			d = g.randomDecl(!fails)
+			if forceSingle {
+				d = g.valueDecl("", pick(g.r, []string{"var", "var", "const", "hook"}))
+				if vs := g.live("var"); len(vs) > 0 && !strings.Contains(d.src, "hook()") && g.r.Chance(1, 3) {
+					d = g.valueDecl(pick(g.r, vs).gm, pick(g.r, []string{"var", "const"}))
+				}
+			} else {
+				d = g.randomDecl(!fails)
+			}
 			nm := strings.Fields(strings.NewReplacer("(", " ", ")", " ").Replace(d.src))[1]
 			// one declaration per name and input; a variable of a type (re)declared in the same input would
 			// depend on the order chosen by the dependency sorter: not generated
@@ -361,6 +425,9 @@ func (g *gen) input(fails bool) *input {
 		}
 		in.apply = append(in.apply, d.apply)
 		in.decls = append(in.decls, d.declID)
+		nh := strings.Count(d.src, "hook()")
+		in.hooks += nh
+		in.cc = append(in.cc, cdeclOf(d.src, nh, true))
 		switch {
 		case strings.HasPrefix(d.src, "func (t "):
 			in.kinds = append(in.kinds, "method")
@@ -497,8 +564,10 @@ func main() {
 		"(var of 4 basic types or of a named struct type, const, func, type T struct{F<k> int|string}, method, var h = hook()) where 2/5 of the declarations REDEFINE a live name "+
 		"(variable/constant/function by any of the three classes and any type; type by a new struct; method by a new body), interleaved (1/3) with inputs that FAIL to compile at the k-th "+
 		"declaration for every k (undefined identifier, type mismatch, undefined type, function/type with a bad body, assignment to a constant, redefinition of an existing function with a bad body) "+
-		"after/before valid declarations, redefinitions and hook() initialisers. Oracle: snapshot (%T,%v or error) of every live name's probes (v, v.F<k>, v.M(), k, f(), T{}) before vs after: "+
-		"identical after a failed input + compiled hook counter unchanged; after a successful input only the probes of the names it declares change, to the generator's values "+
+		"after/before valid declarations, redefinitions and hook() initialisers; 2/5 of the failing declarations are STATEMENTS that fail after part of them was appended to the top-level code buffer "+
+		"(x, y := hook(), nil; for/if/switch/block with a hook() init statement and an undefined call in the body; also redefining a live variable), and the input after such a failure is (3/4) exactly ONE var/const declaration "+
+		"(plain, of a named type, = hook(), or a redefinition: Comp.Compile -> compileDecl's single-spec path), else any input. Oracle: snapshot (%T,%v or error) of every live name's probes (v, v.F<k>, v.M(), k, f(), T{}) before vs after: "+
+		"identical after a failed input + compiled hook counter unchanged; after a successful input the counter moved by exactly the input's own hook() calls (no code of an earlier failed input runs later) and only the probes of the names it declares change, to the generator's values "+
 		"(variables of the previous definition of a redefined type keep type, field, methods, value). A method declared in a failing input is the known-finding class (not generated; corpus replays it). "+
 		"corpus/C15/*.json (exact histories of DESIGN section 7 #10, #11 and of the findings repaired by C15-1/C15-2) run first. non-trivial: the history contains >=1 failing input that follows >=3 live names and >=1 redefinition; distinct by SHA-256 of the sources")
 	wd := vh.NewWatchdog(rep, 10*time.Minute) // generous: go build of the oracle / the first fast.New() take minutes on a loaded machine
@@ -534,6 +603,9 @@ func main() {
 				if s.Fails && hookCounter != before {
 					rep.Fail(vh.Failure{Key: key, What: "code of a failed input ran (hook counter moved)", Input: srcs, Got: hookCounter - before, Want: 0})
 				}
+				if want := strings.Count(s.Src, "hook()"); !s.Fails && ok && hookCounter-before != want {
+					rep.Fail(vh.Failure{Key: key, What: "a successful input ran code it does not contain (hook counter moved by another amount than its hook() calls): code of an earlier failed input ran", Input: srcs, Got: hookCounter - before, Want: want})
+				}
 			}
 			for _, p := range h.Probes {
 				t, v, _ := evalStr(ir, p.Expr)
@@ -554,7 +626,7 @@ func main() {
 	if a.N > 0 {
 		nHist = a.N
 	}
-	header := "From Coq Require Import List ZArith Bool.\nFrom Verif Require Import C14.Model C15.Model.\nImport ListNotations.\nOpen Scope Z_scope."
+	header := "From Coq Require Import List ZArith Bool.\nFrom Verif Require Import C14.Model C15.Code C15.Model.\nImport ListNotations.\nOpen Scope Z_scope."
 	cw := vh.NewCases(a, header, "case", "mismatches", (nHist+7)/8)
 	for hi := 0; hi < nHist; hi++ {
 		g := &gen{r: rng.Fork(), ents: map[string]*entity{}, types: map[string]*tversion{}}
@@ -563,7 +635,7 @@ func main() {
 		hook0 := hookCounter
 		n := 12 + g.r.Intn(29)
 		var srcs []string
-		var c14h, c14o, c15h, c15o []string
+		var c14h, c14o, c15h, c15o, cch []string
 		snapshot := map[string][2]string{}
 		{
 			// Interp.DeclFunc("hook", ...) is the first evaluation of every history (a FuncBind slot)
@@ -573,8 +645,9 @@ func main() {
 				cap(env.Vals), len(env.Vals), cap(env.Ints), len(env.Ints), vh.CoqBool(env.IntAddressTaken)))
 			c15h = append(c15h, "(@nil decl)")
 			c15o = append(c15o, "mkTobs true 0 (@nil (name * Z)) (@nil (name * Z))")
+			cch = append(cch, "(@nil cdecl)")
 		}
-		nontriv, sawRedef := false, false
+		nontriv, sawRedef, probed := false, false, false
 		for si := 0; si < n; si++ {
 			fails := si > 2 && g.r.Chance(1, 3)
 			in := g.input(fails)
@@ -592,6 +665,8 @@ func main() {
 				rep.Fail(vh.Failure{Key: key, What: what, Input: map[string]interface{}{"history_tail": tail, "failing_input": in.Fails}, Got: got, Want: want})
 			}
 			hookBefore := hookCounter
+			staleBefore := g.afterStale && !fails
+			probedSince := probed
 			intsBefore := intsData(env)
 			nLive := len(g.live(""))
 			// ---- evaluate: compile, then run only if it compiled
@@ -608,6 +683,16 @@ func main() {
 			}
 			if status == 1 && hookCounter != hookBefore {
 				fail("code of an input that failed to compile ran (compiled hook counter moved)", hookCounter-hookBefore, 0)
+			}
+			if status == 0 && hookCounter-hookBefore != in.hooks {
+				fail("a successful input ran code it does not contain: compiled hook counter moved by another amount than the input's hook() calls (code of an earlier failed input ran)", hookCounter-hookBefore, in.hooks)
+			}
+			g.afterStale = status == 1 && (in.stale || g.afterStale)
+			if in.stale {
+				rep.Dist("failing-input:leaves-code-in-buffer")
+			}
+			if status == 0 && staleBefore && !probedSince {
+				rep.Dist(fmt.Sprintf("directly-after-stale-buffer:%d-decl-input:first-is-%s", len(in.kinds), in.kinds[0]))
 			}
 			if status == 0 {
 				for _, ap := range in.apply {
@@ -638,7 +723,17 @@ func main() {
 				_ = d
 			}
 			now := map[string][2]string{}
+			// every probe is an Interp.Eval of an expression (compileNode: empties the code buffer). After a failure that
+			// left statements in the buffer the snapshot is mostly SKIPPED, so that the next generated input is the first
+			// thing compiled after the failure; the next snapshot is then compared with the one taken before the failure
+			skipProbes := status == 1 && in.stale && g.r.Chance(3, 4)
+			if skipProbes {
+				rep.Dist("failing-input:leaves-code-in-buffer:no-probe-before-next-input")
+			}
 			for _, p := range g.probes() {
+				if skipProbes {
+					break
+				}
 				t, v, _ := evalStr(ir, p.expr)
 				now[p.expr] = [2]string{t, v}
 				old, had := snapshot[p.expr]
@@ -670,10 +765,20 @@ func main() {
 						if e.kind != "hookvar" && (e.want != [2]string{t, v}) {
 							fail("value after declaration: "+p.expr, t+" "+v, e.want[0]+" "+e.want[1])
 						}
+						if e.kind == "hookvar" {
+							// the value is the counter returned by one of THIS input's hook() calls
+							var hv int
+							if _, err := fmt.Sscan(v, &hv); err != nil || t != "int" || hv <= hookBefore || hv > hookBefore+in.hooks {
+								fail("value of a variable initialised with hook(): "+p.expr, t+" "+v, fmt.Sprintf("int in (%d, %d]", hookBefore, hookBefore+in.hooks))
+							}
+						}
 					}
 				}
 			}
-			snapshot = now
+			if !skipProbes {
+				snapshot = now
+			}
+			probed = !skipProbes && len(now) > 0
 			// ---- model observations
 			c := ir.Comp
 			var dl []string
@@ -707,9 +812,10 @@ func main() {
 				}
 			}
 			c15h = append(c15h, vh.CoqList(in.c15, "decl"))
+			cch = append(cch, vh.CoqList(in.cc, "cdecl"))
 			c15o = append(c15o, fmt.Sprintf("mkTobs %s %d %s %s", vh.CoqBool(status == 0), hookCounter-hook0, vh.CoqList(tv, "(name * Z)"), vh.CoqList(tt, "(name * Z)")))
 		}
-		cw.Add(fmt.Sprintf("mkCase15 %d\n  %s\n  %s\n  %s\n  %s", hi, vh.CoqList(c14h, "(list stmt)"), vh.CoqList(c14o, "obs"), vh.CoqList(c15h, "(list decl)"), vh.CoqList(c15o, "tobs")))
+		cw.Add(fmt.Sprintf("mkCase15 %d\n  %s\n  %s\n  %s\n  %s\n  %s", hi, vh.CoqList(c14h, "(list stmt)"), vh.CoqList(c14o, "obs"), vh.CoqList(c15h, "(list decl)"), vh.CoqList(c15o, "tobs"), vh.CoqList(cch, "(list cdecl)")))
 		rep.CaseInput(hi, srcs)
 		rep.Count(strings.Join(srcs, "\n"), nontriv)
 		rep.Dist("history:generated")
